@@ -74,7 +74,12 @@ F3 == {Case("F3", "wrapped", <<F("c", C3, 0, 1), F("k", Prim("Integer"), 0, 1)>>
             Case("F3", "wrapped", <<F("a", Arr(D3), 0, 1)>>, <<SeqV(ManyD)>>, <<Prim("Integer")>>, <<Leaf("5")>>),
             \* twelve elements: as strings, index 10 sorts before index 2
             Case("F3", "wrapped", <<F("a", Arr(D3), 0, 1)>>, <<SeqV([k \in 1..12 |-> Dv3(Leaf(ToString(100 + k)), Nil, Nil)])>>, <<Prim("Integer")>>, <<Leaf("5")>>),
-            Case("F3", "wrapped", <<F("m", D3, 0, 99), F("z", Prim("Unicode"), 0, 1)>>, <<SeqV(<<Dc, Da>>), Leaf("end")>>, <<Prim("Integer")>>, <<Leaf("5")>>)}
+            Case("F3", "wrapped", <<F("m", D3, 0, 99), F("z", Prim("Unicode"), 0, 1)>>, <<SeqV(<<Dc, Da>>), Leaf("end")>>, <<Prim("Integer")>>, <<Leaf("5")>>),
+            \* elements that do not carry the same members: the member whose key sorts first (elem) appears in the LATER elements only -
+            \* the elements are still a contiguous run, whatever member each of them happens to have
+            Case("F3", "wrapped", <<F("a", Arr(D3), 0, 1)>>, <<SeqV(<<Dv3(Leaf("1"), Nil, Nil), Dv3(Leaf("2"), Nil, Nil), Dv3(Nil, Nil, E2), Dv3(Nil, SeqV(<<E2>>), Nil)>>)>>,
+                 <<Prim("Integer")>>, <<Leaf("5")>>),
+            Case("F3", "wrapped", <<F("m", D3, 0, 99)>>, <<SeqV(<<Dv3(Leaf("1"), Nil, Nil), Dv3(Nil, SeqV(<<E2>>), Nil), Dv3(Nil, Nil, E1)>>)>>, <<Prim("Integer")>>, <<Leaf("5")>>)}
 \* (empty arrays have no spelling of their own in this notation: cases whose values hold one are left to the other protocols)
 \* (nor has an object none of whose members has a value)
 RECURSIVE NoEmpty(_)
